@@ -168,6 +168,15 @@ func AnalyseOpt(code []ds.VerifOp, isMain bool, setYields bool) *Result {
 		if s.PC >= n {
 			if isMain {
 				add("runs-past-end", s.PC, "a path runs past the end of the main code")
+			} else {
+				// a body ends by running off its last instruction: every block / template block opened on the way is closed by then,
+				// and no jump leads beyond that point (a body cut short by a capacity keeps its opening instructions and its jumps)
+				if s.PC > n {
+					add("jump-beyond-end", n-1, fmt.Sprintf("a jump leads to instruction %d of a body of %d", s.PC, n))
+				}
+				if d0, d1 := depth(s.Blocks), depth(s.Fstr); d0 != 0 || d1 != 0 {
+					add("body-ends-with-open-block", n-1, fmt.Sprintf("a path reaches the end of the body with %d/%d open blocks/template blocks", d0, d1))
+				}
 			}
 			continue
 		}
